@@ -2795,7 +2795,7 @@ class EvalAligned(ColExpr):
         return self._ftype
 
     def iter_children(self):
-        return self.val.iter_children()
+        yield self.val
 
     def map_children(self, g):
         self.val = g(self.val)
